@@ -17,7 +17,7 @@ RULE = ('messages built through the public constructors: requests (methods x par
         'errors (base class and the six typed classes x explicit/default code and message incl. 0 and "" x data absent/null/values), '
         'responses (ids x results/errors), request batches of length 0..5 with distinct ids, response batches of length 0..5, '
         'batch-level errors; every message is pushed through json.dumps (both to_json() and the library encoder on the object) '
-        'and json.loads, deserialised, serialised again. distinct = distinct constructor arguments; non-trivial = not a bare '
+        'and json.loads, deserialised, serialised again; before each observed round trip the same round trip is done once and every object and container it produced is modified in place. distinct = distinct constructor arguments; non-trivial = not a bare '
         'parameterless notification / empty batch')
 EXHAUSTIVE = {'quick': False, 'thorough': False}
 TRUSTED_BASE = ['json.dumps/json.loads (stdlib codec, exercised on every case; loads(dumps v) = v assumed for values within the int digit limit)']
@@ -121,9 +121,90 @@ def through_text(obj):
     return json.loads(t1), json.loads(t1) == json.loads(t2) or t1 == t2
 
 
+SCRIBBLE = '<scribble>'
+
+
+def scribble(v, depth=0):
+    """Mutates, in place, every mutable container reachable from a message object or a wire value."""
+    if depth > 4:
+        return
+    if isinstance(v, list):
+        for x in v:
+            scribble(x, depth + 1)
+        v.append(SCRIBBLE)
+    elif isinstance(v, dict):
+        for x in list(v.values()):
+            scribble(x, depth + 1)
+        v[SCRIBBLE] = 1
+    elif isinstance(v, Request):
+        scribble(v.params, depth + 1)
+    elif isinstance(v, Response):
+        if v.is_success:
+            scribble(v.result, depth + 1)
+        else:
+            scribble(v.error, depth + 1)
+    elif isinstance(v, pjrpc.exceptions.JsonRpcError):
+        scribble(v.data, depth + 1)
+    elif isinstance(v, BatchRequest):
+        for r in v:
+            scribble(r, depth + 1)
+    elif isinstance(v, BatchResponse):
+        if v.is_error:
+            scribble(v.error, depth + 1)
+        else:
+            for r in v:
+                scribble(r, depth + 1)
+
+
+def build(case):
+    k = case['kind']
+    if k == 'req':
+        m, p, i = case['req']
+        return Request(m, p, i)
+    if k == 'err':
+        return mk_err(case['err'])
+    if k == 'resp':
+        return mk_resp(case['resp'])
+    if k == 'breq':
+        return BatchRequest(*[Request(m, p, i) for m, p, i in case['reqs']])
+    if k == 'bresp':
+        return BatchResponse(*[mk_resp(r) for r in case['resps']])
+    return BatchResponse(error=mk_err(case['err']))
+
+
+def decode(case, wire, base):
+    k = case['kind']
+    if k == 'req':
+        return Request.from_json(wire)
+    if k == 'err':
+        return base.from_json(wire)
+    if k == 'resp':
+        return Response.from_json(wire, error_cls=base)
+    if k == 'breq':
+        return BatchRequest.from_json(wire)
+    return BatchResponse.from_json(wire, error_cls=base)
+
+
+def warm_up(case, base):
+    """The same round trip done once before the observed one, its every product then scribbled on in place: what the
+    observed round trip yields must not depend on it (messages share no mutable state with each other or with the classes)."""
+    import copy
+    try:
+        obj = build(copy.deepcopy(case))
+        j = obj.to_json()
+        wire, _ = through_text(obj)
+        o2 = decode(case, wire, base)
+        j2 = o2.to_json()
+        for v in (j, wire, o2, j2, obj):
+            scribble(v)
+    except Exception:
+        pass
+
+
 def observe(case):
     k = case['kind']
     base = getattr(pjrpc.exceptions, case['base'])
+    warm_up(case, base)
     try:
         if k == 'req':
             m, p, i = case['req']
